@@ -1,10 +1,304 @@
-import QipVerif.Model.Cqed
-/-! # C18 (starter) -/
-namespace QipVerif.C18
-open QipVerif.Gen
+import QipVerif.Lemmas.CqedCompile
+import QipVerif.Lemmas.ScqCompile
+import QipVerif.Lemmas.CqedGates
+import QipVerif.Lemmas.CqedHann
+/-!
+# C18 — the cavity-QED and superconducting-qubit processors realise their native gates: calibration logic
 
+The numerical bound of the property (process fidelity ≥ 0.999, leakage ≤ 0.001 of the multi-level dynamics) is NOT
+proved here; it is measured on the real code by the check.  Proved, for ALL angles, qubits, pairs, device sizes and
+hardware parameters named in each statement, in the IDEAL EFFECTIVE MODEL — every compiled instruction acts by the
+matrix exponential (`DevExp.prop`, Mathlib's `NormedSpace.exp`) of its control Hamiltonian restricted to the qubit
+subspace times the pulse area; the cavity-mediated exchange by the second-order dispersive Hamiltonian
+`DevExp.dispH` —:
+
+* which hardware parameter of which qubit enters which channel, with which sign, area and duration
+  (`cq_rot_calibrated`, `cq_exchange_compiled`, `scq_rot_calibrated`, `scq_rzx_calibrated`, `zx_strength_of_pair`);
+* exchange pulse + RZ corrections + reported global phase = ISWAP / SQRTISWAP for every uniform pair at resonance
+  and either sign of the effective coupling (`cq_iswap_calibrated`, `cq_sqrtiswap_calibrated`,
+  `cq_phase_accumulated`); the shape before fixes/C18-1.patch is refuted (`cq_sqrtiswap_unreversed_wrong`);
+* the Hann envelope: normalisation, end points, derivative (`hann_envelope`), area of the scaled and rescaled pulse;
+* `cnot_compiler`'s sequence = e^{iπ/4}·CNOT for both orders of control and target (`scq_cnot_calibrated`);
+  `RZX(θ)` for every real θ; the unsigned shape before fixes/C18-2.patch is refuted (`scq_rzx_unsigned_wrong`).
+
+The formulas and tables are the REGENERATED ones (`Gen/CqedTables.lean`, `Gen/ScqTables.lean`); the compiler
+control flow is `Model/Cqed.lean`, run against the real compilers on every check.
+-/
+namespace QipVerif.C18
+open QipVerif QipVerif.Dev QipVerif.Gen QipVerif.DevModel QipVerif.DevReal QipVerif.DevExp QipVerif.GateKron
+
+/-- decidable facts about the regenerated tables -/
 theorem tables_tie :
-    CQ.gateCompiler.lookup "RX" = some (.rotation "sx" "sx") ∧
-    CQ.gateCompiler.lookup "RZ" = some (.rotation "sz" "sz") := by decide
+    CQ.gateCompiler = [("GLOBALPHASE", .phase), ("IDLE", .idle), ("ISWAP", .exchange 0), ("SQRTISWAP", .exchange 1),
+      ("RZ", .rotation "sz" "sz"), ("RX", .rotation "sx" "sx")] ∧
+    CQ.exchNames = ["ISWAP", "SQRTISWAP"] ∧
+    CQ.swapHeld = [("sz", .q1), ("sz", .q2), ("g", .q1), ("g", .q2)] ∧
+    CQ.swapCorrections = [("RZ", .q1), ("RZ", .q2)] ∧
+    CQ.paramAlias = [("sz", "epsmax"), ("sx", "deltamax")] ∧
+    CQ.compileResetsPhase = true ∧ CQ.dropsZeroDuration = true ∧ CQ.handsBackPhase = true ∧
+    CQ.swapFlipsNegJ = true ∧ SCQ.rzxSigned = true ∧
+    CQ.nativeGates.all (fun n => (CQ.gateCompiler.lookup n).isSome) = true ∧
+    SCQ.nativeGates.all (fun n => (SCQ.gateCompiler.lookup n).isSome) = true ∧
+    (CQ.ctlSX_prefix, CQ.ctlSX_op, CQ.ctlSZ_prefix, CQ.ctlSZ_op, CQ.ctlG_prefix) = ("sx", "x", "sz", "z", "g") ∧
+    (∀ N n : Int, CQ.ctlSX_factor N n = n + 1 ∧ CQ.ctlSZ_factor N n = n + 1) ∧ CQ.cavityFactor = 0 ∧ CQ.cavityLevel = 0 ∧
+    SCQ.gateCompiler = [("GLOBALPHASE", .noop), ("IDLE", .idle), ("RY", .rotation "sy" "omega_single"),
+      ("RX", .rotation "sx" "omega_single"), ("CNOT", .cnot), ("RZX", .rzx)] ∧
+    (SCQ.defaultShape, SCQ.defaultNumSamples, SCQ.defaultDrag) = ("hann", 101, true) ∧
+    CQ.labels 2 = ["sx0", "sx1", "sz0", "sz1", "g0", "g1"] ∧
+    SCQ.labels 3 = ["sx0", "sx1", "sx2", "sy0", "sy1", "sy2", "sz0", "sz1", "sz2", "zx01", "zx10", "zx12", "zx21"] := by
+  refine ⟨by decide, by decide, by decide, by decide, by decide, by decide, by decide, by decide, by decide, by decide,
+    by decide, by decide, by decide, ?_, by decide, by decide, by decide, by decide, by decide, by decide⟩
+  intro N n; exact ⟨rfl, rfl⟩
+
+/-! ## cavity QED: single-qubit rotations -/
+
+/-- **RX(θ) / RZ(θ) on qubit `t` of the cavity processor, every θ, every device.**  One rectangular pulse on the
+channel `sx<t>` (`sz<t>`) with the coefficient `sign θ·|deltamax[t]|` (`|epsmax[t]|`) — the strength of THAT qubit —
+for the time `|θ|/(4π|Ω|)`; with the control Hamiltonian `2π·σ` of the channel its propagator is exactly the gate. -/
+theorem cq_rot_calibrated (P : CQ.HW ℝ) (t : Nat) (θ Ω : ℝ) (hΩ : Ω ≠ 0) :
+    (P.deltamax[t]? = some Ω →
+      CQ.compileGate Real.pi P ⟨"RX", [t], [], θ⟩ = .ok ([cqRotInstr ⟨"RX", [t], [], θ⟩ "sx" t Ω], none) ∧
+      (cqRotInstr ⟨"RX", [t], [], θ⟩ "sx" t Ω).pulses = [⟨"sx" ++ toString t, [|Ω| * Real.sign (θ / (4 * Real.pi))]⟩] ∧
+      (cqRotInstr ⟨"RX", [t], [], θ⟩ "sx" t Ω).tlist = [|θ / (4 * Real.pi)| / |Ω|] ∧
+      prop (((CQ.ctlSX_coef Real.pi * ((|Ω| * Real.sign (θ / (4 * Real.pi))) * (|θ / (4 * Real.pi)| / |Ω|)) : ℝ) : ℂ) • G.x_gate_)
+        = G.rx_ θ) ∧
+    (P.epsmax[t]? = some Ω →
+      CQ.compileGate Real.pi P ⟨"RZ", [t], [], θ⟩ = .ok ([cqRotInstr ⟨"RZ", [t], [], θ⟩ "sz" t Ω], none) ∧
+      (cqRotInstr ⟨"RZ", [t], [], θ⟩ "sz" t Ω).pulses = [⟨"sz" ++ toString t, [|Ω| * Real.sign (θ / (4 * Real.pi))]⟩] ∧
+      (cqRotInstr ⟨"RZ", [t], [], θ⟩ "sz" t Ω).tlist = [|θ / (4 * Real.pi)| / |Ω|] ∧
+      prop (((CQ.ctlSZ_coef Real.pi * ((|Ω| * Real.sign (θ / (4 * Real.pi))) * (|θ / (4 * Real.pi)| / |Ω|)) : ℝ) : ℂ) • G.z_gate_)
+        = G.rz_ θ) := by
+  have harea : (|Ω| * Real.sign (θ / (4 * Real.pi))) * (|θ / (4 * Real.pi)| / |Ω|) = θ / (4 * Real.pi) := by
+    have := pulse_area 1 1 Ω (θ / (4 * Real.pi)) hΩ
+    simpa using this
+  have hph : 2 * Real.pi * (θ / (4 * Real.pi)) = θ / 2 := by
+    have := Real.pi_ne_zero; field_simp; ring
+  constructor
+  · intro h
+    refine ⟨cq_compile_RX P t θ Ω h, ?_, ?_, ?_⟩
+    · simp [cqRotInstr, cq_rect_coeff, cq_rotArea_eq]
+    · simp [cqRotInstr, cq_rect_dur, cq_rotArea_eq]
+    · rw [harea, cq_ctlSX_coef_eq, hph, prop_x]
+  · intro h
+    refine ⟨cq_compile_RZ P t θ Ω h, ?_, ?_, ?_⟩
+    · simp [cqRotInstr, cq_rect_coeff, cq_rotArea_eq]
+    · simp [cqRotInstr, cq_rect_dur, cq_rotArea_eq]
+    · rw [harea, cq_ctlSZ_coef_eq, hph, prop_z]
+
+example : ∃ (P : CQ.HW ℝ) (Ω : ℝ), Ω ≠ 0 ∧ P.deltamax[1]? = some Ω ∧ P.epsmax[1]? = some 9 :=
+  ⟨⟨[1, 2], [8, 9], [9, 9], [0, 0], [1, 1], 10⟩, 2, by norm_num, rfl, rfl⟩
+
+/-! ## cavity QED: the exchange gates -/
+
+/-- **ISWAP / SQRTISWAP on the ordered pair `(q1, q2)`, every device, every parameter vector.**  Compiled to: the
+exchange instruction holding `sz<q1>`, `sz<q2>` at the detunings `√(eps² + delta²) − w0` of q1, q2 and `g<q1>`,
+`g<q2>` at the couplings of q1, q2, for the time `area'/|J|` with `J` computed from the SAME detunings and couplings;
+then `RZ(κ)` on q1 and on q2 (each with the strength `epsmax` of its qubit); and `κ` added to the global phase. -/
+theorem cq_exchange_compiled (P : CQ.HW ℝ) (name : String) (k q1 q2 : Nat) (e1 d1 g1 e2 d2 g2 Ω1 Ω2 : ℝ)
+    (hl : CQ.gateCompiler.lookup name = some (.exchange k))
+    (h1 : P.eps[q1]? = some e1) (h2 : P.delta[q1]? = some d1) (h3 : P.g[q1]? = some g1)
+    (h4 : P.eps[q2]? = some e2) (h5 : P.delta[q2]? = some d2) (h6 : P.g[q2]? = some g2)
+    (h7 : P.epsmax[q1]? = some Ω1) (h8 : P.epsmax[q2]? = some Ω2) (θ : ℝ) :
+    let D1 := Real.sqrt (e1 * e1 + d1 * d1) - P.w0
+    let D2 := Real.sqrt (e2 * e2 + d2 * d2) - P.w0
+    let J := g1 * g2 * (1 / D1 + 1 / D2) / 2
+    let κ := CQ.exchCorr Real.pi k
+    ∃ ex : Instr ℝ,
+      CQ.compileGate Real.pi P ⟨name, [q1, q2], [], θ⟩ =
+        .ok ([ex, cqRotInstr ⟨"RZ", [q1], [], κ⟩ "sz" q1 Ω1, cqRotInstr ⟨"RZ", [q2], [], κ⟩ "sz" q2 Ω2], some κ) ∧
+      ex.pulses = [⟨"sz" ++ toString q1, [D1]⟩, ⟨"sz" ++ toString q2, [D2]⟩, ⟨"g" ++ toString q1, [g1]⟩, ⟨"g" ++ toString q2, [g2]⟩] ∧
+      ex.tlist = [CQ.pulseDur (CQ.rectT0 : ℝ) J (CQ.swapArea J (CQ.exchArea k))] ∧
+      CQ.swapJ g1 g2 D1 D2 = J := by
+  intro D1 D2 J κ
+  have hp := cq_pair_eq P q1 q2 e1 d1 g1 e2 d2 g2 h1 h2 h3 h4 h5 h6
+  refine ⟨_, cq_compile_exchange P name k q1 q2 _ Ω1 Ω2 hl hp h7 h8 _ rfl rfl, ?_, ?_, ?_⟩
+  · rw [cq_exchInstr_eq]
+  · rw [cq_exchInstr_eq, cq_swapJ_eq]
+  · rw [cq_swapJ_eq]
+
+/-- **ISWAP in the ideal dispersive model**: for every uniform pair (detuning `d ≠ 0`, coupling `g ≠ 0` — any sign of
+the effective coupling `J = g²/d`) whose detuning phase over the compiled duration is a whole number of turns,
+exchange pulse × RZ(κ)⊗RZ(κ) × e^{iκ} (the reported global phase) is exactly ISWAP. -/
+theorem cq_iswap_calibrated (d g : ℝ) (hd : d ≠ 0) (hg : g ≠ 0) (k : ℤ) :
+    let J := CQ.swapJ g g d d
+    let T := CQ.pulseDur (CQ.rectT0 : ℝ) J (CQ.swapArea J (CQ.exchArea 0))
+    let κ := CQ.exchCorr Real.pi 0
+    2 * d * T = k →
+    (e κ • kron2 (G.rz_ κ) (G.rz_ κ)) * prop (((CQ.ctlSZ_coef Real.pi * T : ℝ) : ℂ) • dispH d d g g) = G.iswap_ ∧
+    CQ.ctlSZ_coef Real.pi = CQ.ctlG_coef0 Real.pi ∧ CQ.ctlSZ_coef Real.pi = CQ.ctlG_coef1 Real.pi := by
+  intro J T κ hres
+  refine ⟨iswap_total d g _ hd hg cq_ctlSZ_coef_eq k hres, ?_, ?_⟩
+  · rw [cq_ctlSZ_coef_eq, cq_ctlG_coef_eq.1]
+  · rw [cq_ctlSZ_coef_eq, cq_ctlG_coef_eq.2]
+
+/-- non-vacuity: the default parameters (`eps = 9.5`, `delta = 0`, `w0 = 10`, `g = 0.01`: `d = −1/2`, `J = −2·10⁻⁴`)
+meet the resonance hypothesis with `−2500` turns -/
+example : 2 * (-1 / 2 : ℝ) * CQ.pulseDur (CQ.rectT0 : ℝ) (CQ.swapJ (1 / 100) (1 / 100) (-1 / 2) (-1 / 2))
+    (CQ.swapArea (CQ.swapJ (1 / 100) (1 / 100) (-1 / 2) (-1 / 2)) (CQ.exchArea 0)) = ((-2500 : ℤ) : ℝ) := by
+  rw [swapJ_uniform _ _ (by norm_num), cq_swapArea_eq, cq_exchArea_eq.1, cq_rect_dur]
+  norm_num [abs_of_neg, abs_of_pos]
+
+/-- **SQRTISWAP in the ideal dispersive model**, every uniform pair at resonance, EITHER sign of the effective
+coupling (the compiler runs a backward exchange for `1 − area` periods, fixes/C18-1.patch). -/
+theorem cq_sqrtiswap_calibrated (d g : ℝ) (hd : d ≠ 0) (hg : g ≠ 0) (k : ℤ) :
+    let J := CQ.swapJ g g d d
+    let T := CQ.pulseDur (CQ.rectT0 : ℝ) J (CQ.swapArea J (CQ.exchArea 1))
+    let κ := CQ.exchCorr Real.pi 1
+    2 * d * T = k →
+    (e κ • kron2 (G.rz_ κ) (G.rz_ κ)) * prop (((CQ.ctlSZ_coef Real.pi * T : ℝ) : ℂ) • dispH d d g g) = G.sqrtiswap_ := by
+  intro J T κ hres
+  exact sqrtiswap_total d g _ hd hg cq_ctlSZ_coef_eq k (Or.inl (by decide)) hres
+
+/-- non-vacuity at the default parameters: the reversed exchange lasts 3750 (three quarters of the period 5000) -/
+example : 2 * (-1 / 2 : ℝ) * CQ.pulseDur (CQ.rectT0 : ℝ) (CQ.swapJ (1 / 100) (1 / 100) (-1 / 2) (-1 / 2))
+    (CQ.swapArea (CQ.swapJ (1 / 100) (1 / 100) (-1 / 2) (-1 / 2)) (CQ.exchArea 1)) = ((-3750 : ℤ) : ℝ) := by
+  rw [swapJ_uniform _ _ (by norm_num), cq_swapArea_eq, cq_exchArea_eq.2, cq_rect_dur,
+    if_pos ⟨by decide, by norm_num⟩]
+  norm_num [abs_of_neg, abs_of_pos]
+
+/-- **the shape before fixes/C18-1.patch is wrong for every negative effective coupling** (the default parameters):
+the exchange pulse of area 1/4 followed by the same corrections is not SQRTISWAP, for every uniform pair at
+resonance, in the same ideal model (the `|11⟩` entry is −1; the one-excitation block is the inverse root). -/
+theorem cq_sqrtiswap_unreversed_wrong (d g : ℝ) (hd : d < 0) (hg : g ≠ 0) (k : ℤ)
+    (hres : 2 * d * CQ.pulseDur (CQ.rectT0 : ℝ) (CQ.swapJ g g d d) (1 / 4) = k) :
+    (e (CQ.exchCorr Real.pi 1) • kron2 (G.rz_ (CQ.exchCorr Real.pi 1)) (G.rz_ (CQ.exchCorr Real.pi 1))) *
+      prop (((CQ.ctlSZ_coef Real.pi * CQ.pulseDur (CQ.rectT0 : ℝ) (CQ.swapJ g g d d) (1 / 4) : ℝ) : ℂ) • dispH d d g g)
+      ≠ G.sqrtiswap_ :=
+  sqrtiswap_unreversed_wrong d g _ hd hg cq_ctlSZ_coef_eq k hres
+
+/-- the default parameters are an instance (−1250 turns) -/
+example : 2 * (-1 / 2 : ℝ) * CQ.pulseDur (CQ.rectT0 : ℝ) (CQ.swapJ (1 / 100) (1 / 100) (-1 / 2) (-1 / 2)) (1 / 4)
+    = ((-1250 : ℤ) : ℝ) := by
+  rw [swapJ_uniform _ _ (by norm_num), cq_rect_dur]
+  norm_num [abs_of_neg, abs_of_pos]
+
+/-- **global-phase bookkeeping**: after `compile`, whatever the compiler carried before, the reported phase is the
+sum over the gate list of: the angle of a GLOBALPHASE gate, the correction angle `κ` of an exchange gate, 0 otherwise;
+`load_circuit` hands exactly this value to the processor. -/
+theorem cq_phase_accumulated (P : CQ.HW ℝ) (ph0 old : ℝ) (gs : List (GateRec ℝ)) (is : List (Instr ℝ)) (ph : ℝ)
+    (h : CQ.compile Real.pi P ph0 gs = .ok (is, ph)) :
+    ph = (gs.map cqPhaseOf).sum ∧ CQ.reportedPhase old ph = ph ∧
+    cqPhaseOf ⟨"GLOBALPHASE", [], [], ph0⟩ = ph0 ∧
+    (∀ t c a, cqPhaseOf ⟨"ISWAP", t, c, a⟩ = -(Real.pi / 2) ∧ cqPhaseOf ⟨"SQRTISWAP", t, c, a⟩ = -(Real.pi / 4) ∧
+      cqPhaseOf ⟨"RX", t, c, a⟩ = 0 ∧ cqPhaseOf ⟨"RZ", t, c, a⟩ = 0) := by
+  refine ⟨cq_compile_phase P ph0 gs is ph h (by decide), ?_, ?_, ?_⟩
+  · unfold CQ.reportedPhase; simp [show CQ.handsBackPhase = true by decide]
+  · unfold cqPhaseOf; rw [cq_lookup_GLOBALPHASE]
+  · intro t c a
+    refine ⟨?_, ?_, ?_, ?_⟩
+    · unfold cqPhaseOf; simp only [cq_lookup_ISWAP]; exact cq_exchCorr_eq.1
+    · unfold cqPhaseOf; simp only [cq_lookup_SQRTISWAP]; exact cq_exchCorr_eq.2
+    · unfold cqPhaseOf; simp only [cq_lookup_RX]
+    · unfold cqPhaseOf; simp only [cq_lookup_RZ]
+
+/-! ## superconducting qubits -/
+
+/-- **the Hann envelope**: it integrates to 1 over `[0, t_max]`, vanishes at both ends, lies in `[0, 1]` with the
+value 1 in the middle, its derivative integrates to 0; after the scaling of `generate_pulse_shape` the samples lie on
+an envelope whose integral over the pulse is the requested area, and a pulse whose coefficients and times are both
+multiplied by `f` has `f²` times the area. -/
+theorem hann_envelope :
+    (∫ u in (0 : ℝ)..(SCQ.windowTmax : ℝ), SCQ.window Real.pi u = 1) ∧
+    (SCQ.window Real.pi 0 = 0 ∧ SCQ.window Real.pi (SCQ.windowTmax : ℝ) = 0) ∧
+    (∀ u, 0 ≤ SCQ.window Real.pi u ∧ SCQ.window Real.pi u ≤ 1) ∧ SCQ.window Real.pi 1 = 1 ∧
+    (∀ u, HasDerivAt (SCQ.window Real.pi) (Real.pi / 2 * Real.sin (Real.pi * u)) u) ∧
+    (∫ u in (0 : ℝ)..(SCQ.windowTmax : ℝ), Real.pi / 2 * Real.sin (Real.pi * u) = 0) ∧
+    (∀ Ω a u : ℝ, Ω ≠ 0 → a ≠ 0 →
+      SCQ.pulseCoeff (SCQ.window Real.pi u) Ω a = envelope Ω a (SCQ.pulseDur u Ω a)) ∧
+    (∀ Ω a : ℝ, Ω ≠ 0 → ∫ t in (0 : ℝ)..(SCQ.pulseDur (SCQ.windowTmax : ℝ) Ω a), envelope Ω a t = a) ∧
+    (∀ Ω a f : ℝ, Ω ≠ 0 →
+      ∫ t in (0 : ℝ)..(SCQ.pulseDur (SCQ.windowTmax : ℝ) Ω a * f), f * envelope Ω a (t / f) = f * f * a) :=
+  ⟨hann_integral, hann_ends, fun u => ⟨hann_nonneg u, hann_le_one u⟩, hann_mid, hann_hasDeriv, hann_deriv_integral,
+    sample_on_envelope, envelope_area, envelope_rescaled_area⟩
+
+/-- **RX(θ) / RY(θ) on qubit `t` of the superconducting processor, every θ, every device** (default `args`: Hann
+window, DRAG).  The main quadrature is on `sx<t>` (`sy<t>`), sampled from the envelope scaled with the strength
+`omega_single[t]` of THAT qubit and the area `θ/(2π)`, corrected by `dragX` with the anharmonicity `alpha[t]`; the
+Z quadrature on `sz<t>`; the derivative quadrature on `sy<t>` (for RX) resp. with the opposite sign on `sx<t>` (for
+RY).  With the control `π·X` (`π·Y`) on the qubit subspace, the envelope area gives exactly the gate.  (The DRAG
+corrections themselves — their effect on leakage and the change of the area by `−c³/(4α²)` — belong to the measured
+part.) -/
+theorem scq_rot_calibrated (H : SCQ.HW ℝ) (n t : Nat) (θ Ω α w : ℝ) (hn : 2 ≤ n) (hΩ0 : Ω ≠ 0)
+    (hΩ : H.raw.omega_single[t]? = some Ω) (hα : H.raw.alpha[t]? = some α) (hw : H.raw.wq[t]? = some w) :
+    SCQ.compileGate Real.pi H true n ⟨"RX", [t], [], θ⟩ = .ok ([scqDragInstr ⟨"RX", [t], [], θ⟩ "sx" "sy" false n t Ω α], none) ∧
+    SCQ.compileGate Real.pi H true n ⟨"RY", [t], [], θ⟩ = .ok ([scqDragInstr ⟨"RY", [t], [], θ⟩ "sy" "sx" true n t Ω α], none) ∧
+    (∫ s in (0 : ℝ)..(SCQ.pulseDur (SCQ.windowTmax : ℝ) Ω (SCQ.rotArea Real.pi θ)), envelope Ω (SCQ.rotArea Real.pi θ) s)
+      = θ / (2 * Real.pi) ∧
+    prop (((SCQ.ctlSX_coef Real.pi * (θ / (2 * Real.pi)) : ℝ) : ℂ) • G.x_gate_) = G.rx_ θ ∧
+    prop (((SCQ.ctlSY_coef Real.pi * (θ / (2 * Real.pi)) : ℝ) : ℂ) • G.y_gate_) = G.ry_ θ := by
+  have hph : Real.pi * (θ / (2 * Real.pi)) = θ / 2 := by
+    have := Real.pi_ne_zero; field_simp
+  refine ⟨?_, ?_, ?_, ?_, ?_⟩
+  · unfold SCQ.compileGate
+    simp only [scq_lookup_RX]
+    rw [scq_rotation_drag_sx H _ n t [] Ω α w hn rfl hΩ hα hw]
+  · unfold SCQ.compileGate
+    simp only [scq_lookup_RY]
+    rw [scq_rotation_drag_sy H _ n t [] Ω α w hn rfl hΩ hα hw]
+  · rw [envelope_area Ω _ hΩ0, scq_rotArea_eq]
+  · rw [scq_ctlSX_coef_eq, hph, prop_x]
+  · rw [scq_ctlSY_coef_eq, hph, prop_y]
+
+example : ∃ (H : SCQ.HW ℝ) (Ω α w : ℝ), Ω ≠ 0 ∧ H.raw.omega_single[1]? = some Ω ∧ H.raw.alpha[1]? = some α ∧ H.raw.wq[1]? = some w :=
+  ⟨SCQ.computeParams ⟨[5, 6], [7], [-3, -3], [1, 1], [2, 2], [2, 2]⟩ 2, 2, -3, 6, by norm_num, by simp [SCQ.computeParams],
+    by simp [SCQ.computeParams], by simp [SCQ.computeParams]⟩
+
+/-- **which ZX strength belongs to which (control, target)**, every device size `N` and neighbours `i, i+1 < N`:
+`rzx_compiler` reads for (control `i`, target `i+1`) the cross-resonance strength with the drive amplitude and the
+anharmonicity of qubit `i` and the detuning `ω_i − ω_{i+1}`, and for (control `i+1`, target `i`) the one of qubit
+`i+1` with the detuning `ω_{i+1} − ω_i`; both with the exchange coupling `J[i]` of the pair. -/
+theorem zx_strength_of_pair (P : SCQ.Raw ℝ) (N i : Nat) (hi : i + 1 < N) :
+    SCQ.pyIdx? (SCQ.computeParams P N).zx_coeff (SCQ.rzxIdx (i : Int) ((i + 1 : Nat) : Int))
+      = some (crStrength P (SCQ.computeParams P N).J i i (i + 1)) ∧
+    SCQ.pyIdx? (SCQ.computeParams P N).zx_coeff (SCQ.rzxIdx ((i + 1 : Nat) : Int) (i : Int))
+      = some (crStrength P (SCQ.computeParams P N).J i (i + 1) i) :=
+  zx_coeff_of_pair P N i hi
+
+/-- **RZX(θ) on the ordered pair `(q1, q2)`, EVERY real θ** (the area carries the sign of the angle,
+fixes/C18-2.patch): one pulse on the channel `zx<q1><q2>` sampled from the Hann envelope of strength `zx_coeff[…]`,
+coefficients and times multiplied by `f = √(|θ|/(π/2))`; its total area is `θ/π`, and with the control
+`2π·(Z/2)⊗(X/2)` (channel `zx<m><m+1>`) resp. `2π·(X/2)⊗(Z/2)` (channel `zx<m+1><m>`) the propagator is exactly
+`RZX(θ)` resp. `RZX(θ)` with the two qubits exchanged. -/
+theorem scq_rzx_calibrated (H : SCQ.HW ℝ) (n q1 q2 : Nat) (θ mx : ℝ) (hmx : mx ≠ 0)
+    (hm : SCQ.pyIdx? H.zx_coeff (SCQ.rzxIdx (q1 : Int) (q2 : Int)) = some mx) :
+    SCQ.compileGate Real.pi H true n ⟨"RZX", [q1, q2], [], θ⟩ = .ok ([scqRzxInstr ⟨"RZX", [q1, q2], [], θ⟩ n q1 q2 mx], none) ∧
+    (∫ s in (0 : ℝ)..(SCQ.pulseDur (SCQ.windowTmax : ℝ) mx (SCQ.rzxArea Real.pi θ) * SCQ.rzxRescale Real.pi θ),
+        SCQ.rzxRescale Real.pi θ * envelope mx (SCQ.rzxArea Real.pi θ) (s / SCQ.rzxRescale Real.pi θ)) = θ / Real.pi ∧
+    prop (((SCQ.ctlZXf_coef Real.pi * (1 / 2 * (1 / 2)) * (θ / Real.pi) : ℝ) : ℂ) • ZX) = G.cls_RZX_ θ ∧
+    prop (((SCQ.ctlZXb_coef Real.pi * (1 / 2 * (1 / 2)) * (θ / Real.pi) : ℝ) : ℂ) • XZ) = DevExp.flip (G.cls_RZX_ θ) := by
+  refine ⟨?_, ?_, prop_zx_area _ θ scq_ctlZX_coef_eq.1, prop_xz_area _ θ scq_ctlZX_coef_eq.2⟩
+  · unfold SCQ.compileGate
+    simp only [scq_lookup_RZX]
+    rw [scq_rzx_eq H _ n q1 q2 mx rfl hm]
+  · rw [envelope_rescaled_area mx _ _ hmx, rzx_total_area θ (Or.inl (by decide))]
+
+/-- **the shape before fixes/C18-2.patch is wrong for negative angles**: with the unsigned area 1/2 the total area is
+`|θ|/π`, i.e. the pulse of `RZX(|θ|)`, and `RZX(|−π/2|) ≠ RZX(−π/2)`. -/
+theorem scq_rzx_unsigned_wrong :
+    (∀ θ : ℝ, SCQ.rzxRescale Real.pi θ * SCQ.rzxRescale Real.pi θ * (1 / 2) = |θ| / Real.pi) ∧
+    prop (((SCQ.ctlZXf_coef Real.pi * (1 / 2 * (1 / 2)) * (|(-(Real.pi / 2))| / Real.pi) : ℝ) : ℂ) • ZX)
+      ≠ G.cls_RZX_ (-(Real.pi / 2)) := by
+  refine ⟨rzx_total_area_unsigned, ?_⟩
+  rw [prop_zx_area _ _ scq_ctlZX_coef_eq.1]
+  exact rzx_sign_matters
+
+/-- **CNOT(control `c`, target `t`), every device.**  `cnot_compiler` emits, in this order, `RX(−π/2)` on `t`,
+`RZX(π/2)` on `(c, t)`, `RX(−π/2)`, `RY(−π/2)`, `RX(π/2)` on `c`, each compiled exactly as the stand-alone gate
+(so `scq_rot_calibrated`, `scq_rzx_calibrated`, `zx_strength_of_pair` apply to them); the product of their ideal
+propagators is `e^{iπ/4}·CNOT` — for the control on the first qubit of the pair and, with every factor exchanged, for
+the control on the second.  (The compiler reports no global phase for this device: process fidelity does not see it.) -/
+theorem scq_cnot_calibrated (H : SCQ.HW ℝ) (drag : Bool) (n c t : Nat) (θ : ℝ) (i1 i2 i3 i4 i5 : Instr ℝ)
+    (h1 : SCQ.rotation Real.pi H drag n ⟨"RX", [t], [], -(Real.pi / 2)⟩ "sx" "omega_single" = .ok i1)
+    (h2 : SCQ.rzx Real.pi H n ⟨"RZX", [c, t], [], Real.pi / 2⟩ = .ok i2)
+    (h3 : SCQ.rotation Real.pi H drag n ⟨"RX", [c], [], -(Real.pi / 2)⟩ "sx" "omega_single" = .ok i3)
+    (h4 : SCQ.rotation Real.pi H drag n ⟨"RY", [c], [], -(Real.pi / 2)⟩ "sy" "omega_single" = .ok i4)
+    (h5 : SCQ.rotation Real.pi H drag n ⟨"RX", [c], [], Real.pi / 2⟩ "sx" "omega_single" = .ok i5) :
+    SCQ.compileGate Real.pi H drag n ⟨"CNOT", [t], [c], θ⟩ = .ok ([i1, i2, i3, i4, i5], none) ∧
+    kron2 (G.rx_ (Real.pi / 2)) 1 * kron2 (G.ry_ (-(Real.pi / 2))) 1 * kron2 (G.rx_ (-(Real.pi / 2))) 1
+        * G.cls_RZX_ (Real.pi / 2) * kron2 1 (G.rx_ (-(Real.pi / 2))) = e (Real.pi / 4) • G.cnot_ ∧
+    kron2 1 (G.rx_ (Real.pi / 2)) * kron2 1 (G.ry_ (-(Real.pi / 2))) * kron2 1 (G.rx_ (-(Real.pi / 2)))
+        * DevExp.flip (G.cls_RZX_ (Real.pi / 2)) * kron2 (G.rx_ (-(Real.pi / 2))) 1 = e (Real.pi / 4) • cnotRev ∧
+    cnotRev = !![1, 0, 0, 0; 0, 0, 0, 1; 0, 0, 1, 0; 0, 1, 0, 0] :=
+  ⟨scq_compile_CNOT H drag n c t θ i1 i2 i3 i4 i5 h1 h2 h3 h4 h5, cnot_sequence, cnot_sequence_rev, cnotRev_eq⟩
 
 end QipVerif.C18
